@@ -1,8 +1,9 @@
 """Native single-stepping of x86-64 instructions (engine of C07, DESIGN.md section 4).
 
 The stepper is the C program vf/x86step.c, built lazily with gcc into /verif/.build/ (keyed by a
-hash of its source; tools/prebuild.sh builds it ahead of time).  One process executes a whole
-batch of (instruction bytes, register file, arena seed) cases and reports, per case, the register
+hash of its source; tools/prebuild.sh builds it ahead of time).  It runs as a child process of
+each worker (a bad instruction can only corrupt the child; it is restarted and the batch bisected)
+and executes batches of (instruction bytes, register file, arena seed) cases and reports, per case, the register
 file after the instruction, a hash of the scratch arena and which arena bytes changed.  Faults
 (SIGSEGV/SIGILL/SIGFPE/SIGBUS/SIGTRAP) are caught inside the stepper and reported per case.
 
@@ -92,10 +93,43 @@ def locate(reg):
 
 _STATE = struct.Struct("<16QQQ256s")
 _IN_HEAD = struct.Struct("<IIQ32s")
-_OUT_HEAD = struct.Struct("<IIIIQQ")
+_OUT_HEAD = struct.Struct("<IIIIIIQQ")
 IN_SIZE = _IN_HEAD.size + _STATE.size
 OUT_SIZE = _OUT_HEAD.size + _STATE.size
-assert IN_SIZE == 448 and OUT_SIZE == 432
+assert IN_SIZE == 448 and OUT_SIZE == 440
+
+
+GPR_OFF = _IN_HEAD.size  # offset of gpr[0] inside an input record
+XMM_OFF = _IN_HEAD.size + 144  # offset of xmm0
+
+
+def status_name(status):
+    import signal
+
+    if status == CRASHED:
+        return "stepper crashed"
+    try:
+        return signal.Signals(status).name
+    except ValueError:
+        return "signal %d" % status
+
+
+def pack_record(code, arena_seed, st):
+    if not 0 < len(code) <= MAXCODE:
+        raise HarnessError("instruction of %d bytes" % len(code))
+    return _IN_HEAD.pack(len(code), 0, arena_seed & M64, bytes(code)) + pack_state(st)
+
+
+def run_packed(recs, chunk=None):
+    """[input record bytes] -> [Result]"""
+    out = []
+    a = 0
+    while a < len(recs):
+        limit = _server()[2]
+        step = min(chunk or limit, limit)
+        out.extend(_run_chunk(recs[a : a + step]))
+        a += step
+    return out
 
 
 def pack_state(st):
@@ -109,60 +143,139 @@ def unpack_state(buf, off):
     return {"g": list(t[:16]), "f": t[16], "x": [int.from_bytes(xb[16 * i : 16 * i + 16], "little") for i in range(16)]}
 
 
-class Result:
-    __slots__ = ("status", "state", "arena_hash", "nchanged", "first", "last", "fault_addr")
+CRASHED = -1  # status of a case that killed the stepper itself
 
-    def __init__(self, status, state, arena_hash, nchanged, first, last, fault_addr):
+
+class Result:
+    """One executed case.  `changed` is a bit set (bit i: gpr i, bit 16+i: low half of xmm i differs
+    from the input); the register file is decoded lazily (`state`, `gpr(i)`, `xmm(i)`)."""
+
+    __slots__ = ("status", "changed", "arena_hash", "nchanged", "first", "last", "fault_addr", "_raw", "_off", "_state")
+
+    def __init__(self, status, changed, arena_hash, nchanged, first, last, fault_addr, raw, off):
         self.status = status
-        self.state = state
+        self.changed = changed
         self.arena_hash = arena_hash
         self.nchanged = nchanged
         self.first = first
         self.last = last
         self.fault_addr = fault_addr
+        self._raw = raw
+        self._off = off
+        self._state = None
+
+    @property
+    def state(self):
+        if self._state is None and self._raw is not None:
+            self._state = unpack_state(self._raw, self._off)
+        return self._state
+
+    def gpr(self, i):
+        o = self._off + 8 * i
+        return int.from_bytes(self._raw[o : o + 8], "little")
+
+    def xmm(self, i):
+        o = self._off + 144 + 16 * i
+        return int.from_bytes(self._raw[o : o + 16], "little")
+
+    def reg(self, f, i):
+        return self.gpr(i) if f == "g" else self.xmm(i)
 
 
-CRASHED = -1  # status of a case that killed the stepper itself
+_SERVER = []  # [(pid of the owning process, Popen, request size limit in records)]
+_PIPE_SZ = 1 << 20
 
 
-def _run_raw(exe, blob, n):
-    p = subprocess.run([exe], input=b"C07I" + struct.pack("<I", n) + blob, capture_output=True, timeout=300)
-    if p.returncode != 0 or len(p.stdout) != 8 + n * OUT_SIZE or p.stdout[:4] != b"C07O":
+def _server():
+    """The stepper process of this Python process (started lazily, one per process: a forked
+    worker starts its own).  Requests and responses travel over pipes enlarged to 1 MiB so that a
+    whole request and its response fit without the two sides waiting for each other."""
+    import atexit
+    import fcntl
+
+    if _SERVER and _SERVER[0][0] == os.getpid() and _SERVER[0][1].poll() is None:
+        return _SERVER[0]
+    del _SERVER[:]
+    p = subprocess.Popen([build()], stdin=subprocess.PIPE, stdout=subprocess.PIPE, stderr=subprocess.DEVNULL, bufsize=0, close_fds=True)
+    limit = 96  # records per request that fit a default 64 KiB pipe in both directions
+    try:
+        F_SETPIPE_SZ = getattr(fcntl, "F_SETPIPE_SZ", 1031)
+        a = fcntl.fcntl(p.stdin.fileno(), F_SETPIPE_SZ, _PIPE_SZ)
+        b = fcntl.fcntl(p.stdout.fileno(), F_SETPIPE_SZ, _PIPE_SZ)
+        limit = max(96, (min(a, b) - 4096) // IN_SIZE)
+    except OSError:
+        pass
+    ent = (os.getpid(), p, limit)
+    _SERVER.append(ent)
+
+    def _stop(p=p, pid=os.getpid()):
+        if os.getpid() == pid and p.poll() is None:
+            try:
+                p.stdin.close()
+                p.wait(timeout=5)
+            except Exception:
+                p.kill()
+
+    atexit.register(_stop)
+    return ent
+
+
+def _kill_server():
+    if _SERVER:
+        p = _SERVER[0][1]
+        if _SERVER[0][0] == os.getpid():
+            try:
+                p.kill()
+                p.wait()
+            except Exception:
+                pass
+        del _SERVER[:]
+
+
+def _read_exact(f, n):
+    chunks = []
+    while n:
+        b = f.read(n)
+        if not b:
+            return None
+        chunks.append(b)
+        n -= len(b)
+    return b"".join(chunks)
+
+
+def _run_raw(recs):
+    """One request.  Returns the raw response or None when the stepper died on it."""
+    _, p, _ = _server()
+    n = len(recs)
+    try:
+        p.stdin.write(b"C07I" + struct.pack("<I", n) + b"".join(recs))
+        out = _read_exact(p.stdout, 8 + n * OUT_SIZE)
+    except (BrokenPipeError, OSError):
+        out = None
+    if out is None or out[:4] != b"C07O":
+        _kill_server()
         return None
-    return p.stdout
-
-
-def run_batch(items, chunk=4096):
-    """items: [(code bytes, state, arena_seed)] -> [Result].  A case that kills the stepper process
-    is isolated by bisection and gets status CRASHED."""
-    exe = build()
-    out = []
-    for a in range(0, len(items), chunk):
-        part = items[a : a + chunk]
-        recs = []
-        for code, st, seed in part:
-            if not 0 < len(code) <= MAXCODE:
-                raise HarnessError("instruction of %d bytes" % len(code))
-            recs.append(_IN_HEAD.pack(len(code), 0, seed & M64, bytes(code)) + pack_state(st))
-        out.extend(_run_chunk(exe, recs))
     return out
 
 
-def _run_chunk(exe, recs):
-    try:
-        raw = _run_raw(exe, b"".join(recs), len(recs))
-    except subprocess.TimeoutExpired:
-        raw = None
+def run_batch(items, chunk=None):
+    """items: [(code bytes, state, arena_seed)] -> [Result].  A case that kills the stepper process
+    is isolated by bisection and gets status CRASHED."""
+    return run_packed([pack_record(code, seed, st) for code, st, seed in items], chunk)
+
+
+def _run_chunk(recs):
+    raw = _run_raw(recs)
     if raw is None:
         if len(recs) == 1:
-            return [Result(CRASHED, None, 0, 0, 0, 0, 0)]
+            return [Result(CRASHED, 0, 0, 0, 0, 0, 0, None, 0)]
         h = len(recs) // 2
-        return _run_chunk(exe, recs[:h]) + _run_chunk(exe, recs[h:])
+        return _run_chunk(recs[:h]) + _run_chunk(recs[h:])
     res = []
     for i in range(len(recs)):
         off = 8 + i * OUT_SIZE
-        status, nch, first, last, ah, fa = _OUT_HEAD.unpack_from(raw, off)
-        res.append(Result(status, unpack_state(raw, off + _OUT_HEAD.size), ah, nch, first, last, fa))
+        status, changed, nch, first, last, _, ah, fa = _OUT_HEAD.unpack_from(raw, off)
+        res.append(Result(status, changed, ah, nch, first, last, fa, raw, off + _OUT_HEAD.size))
     return res
 
 
